@@ -30,7 +30,7 @@ for l in demo_cmd.split('\n'):
     for part in l.strip().split('&&'):
         part = part.strip()
         if not part or part.startswith('#'): continue
-        if part.startswith('cp ') or 'cargo test' in part: steps.append(part)      # git apply / cleanup / cd lines of the agent are not replayed: this tool applies and undoes the patch itself
+        if part.startswith(('cp ', 'mkdir ')) or 'cargo test' in part: steps.append(part)      # git apply / cleanup / cd lines of the agent are not replayed: this tool applies and undoes the patch itself
 demo_cmd = ' && '.join(steps)
 rc1, o1 = run(demo_cmd); ran.append({'step': 'demo with change: ' + demo_cmd, 'exit': rc1})
 run('git checkout -- .')
